@@ -755,7 +755,7 @@ def run(ck):
                     f0 = res["e2e"]["fails"][0]
                     ck.bump("e2e-failure:" + f0["mode"])
                     peer = "server" if role == "client" else "client"
-                    ck.violation(f"e2e/{fw}/{peer}-receives/{f0['mode']}",
+                    ck.violation(f"e2e/{fw.split('+')[0]}/{peer}-receives/{f0['mode']}",
                                  f"real peer did not deliver exactly the sent messages ({fw}, sender {role}): state "
                                  f"{f0['state']}, got {f0['got']}, want {f0['want']}, bad {f0['bad']}",
                                  {"fw": fw, "case": case, "fail": f0}, found_input=True)
